@@ -84,5 +84,51 @@ Definition dispatch (cmd : sx) : sx :=
                             | None => bad end) ds)
       | _ => bad
       end
+  | L [I 11; scs] =>
+      match d_list d_scenario scs with
+      | Some l => x_list (fun sc => L [I (min_hops sc); I (score_upper_bound sc); x_nat (steiner sc);
+                                       x_bool (cost_value_domain sc); x_bool (wf_scenario sc)]) l
+      | None => bad
+      end
+  | L [I 12; mops] =>
+      match d_list d_mop mops with
+      | Some ops =>
+          (* the modes needed to print an output are those of the environment the op is about *)
+          let modes_of := fix go (ops : list mop) (i : nat) : modes :=
+                            match ops with
+                            | [] => mkModes false true true
+                            | MNew j _ m _ :: r => if Nat.eqb i j then
+                                                     (* the LAST construction before use wins; good enough for printing
+                                                        because the harness never re-uses an id *)
+                                                     m else go r i
+                            | _ :: r => go r i
+                            end in
+          L (map (fun p => match snd p with
+                           | MDone => L [I 7]
+                           | MUndef => L [I 8]
+                           | MNoEnv => L [I 6]
+                           | MOut o => x_opout (modes_of ops (match fst p with
+                                                              | MNew j _ _ _ | MReinit j | MOp j _ => j end)) o
+                           end) (combine ops (run_shared (None, []) ops)))
+      | None => bad
+      end
+  | L [I 13; gp; orc] =>
+      match d_gparams gp, d_list d_Z orc with
+      | Some p, Some o =>
+          match generate p o with
+          | Ok sc rest => L [I 0; x_scenario sc; x_nat (length rest); x_bool (wf_scenario sc)]
+          | More => L [I 1]
+          | Crash w => L [I 2; x_nat w]
+          end
+      | _, _ => bad
+      end
+  | L [I 14; sc; segs] =>
+      match d_scenario sc,
+            d_list (fun g => match g with
+                             | L [sts; vals] => do a <- d_list d_state sts; do b <- d_list d_Z vals; Some (a, b)
+                             | _ => None end) segs with
+      | Some sc', Some gs => x_list (fun g => x_bool (ok_C05_history sc' (fst g) (snd g))) gs
+      | _, _ => bad
+      end
   | _ => bad
   end.
